@@ -15,7 +15,8 @@ RULE = ('host models = (errno table, signal enum, address-family enum, socket-ki
         'Darwin, an empty host, and generated permutations / sparse subsets of the names; installed by swapping '
         'errno.errorcode in place and rebinding signal.Signals, socket.AddressFamily, socket.SocketKind and '
         'socket.SOL_SOCKET in their home modules and in every module global of pykdebugparser.* that is identical to '
-        'them. Cases: every BSD decoder x EVERY error code 1..140 x 2 (quick) / 4 (thorough) START shapes under the real host and the Darwin model (errno table and E* constants swapped); every BSD decoder x sampled codes under all five models, sigaction 1..31, '
+        'them; plus one RELOAD of the decoder modules on an "alien platform" (every integer constant of errno / socket / '
+        'signal renumbered or removed) so that tables built from the host at import time are seen too. Cases: every BSD decoder x EVERY error code 1..140 x 2 (quick) / 4 (thorough) START shapes under the real host and the Darwin model (errno table and E* constants swapped); every BSD decoder x sampled codes under all five models, sigaction 1..31, '
         'socket/socketpair/socket_delegate x Darwin families x kinds 1..5, get/setsockopt with levels 0xffff/1/6/0. '
         'Oracle: (1) the rendered text is identical under every host model; (2) the names are Darwin\'s: errno and '
         'signal tables of xnu, required family names, SOCK_*, SOL_SOCKET + SO_* for level 0xffff; codes Darwin does '
@@ -187,7 +188,77 @@ def prop_errno_sweep(ctx, case):
     ctx.note([name, 'sweep'], nontrivial=True, classes=['errno-sweep'])
 
 
-PROPS = {'errno_sweep': prop_errno_sweep, 'errno': prop_errno, 'signal': prop_signal, 'socket': prop_socket, 'sockopt': prop_sockopt}
+@contextlib.contextmanager
+def alien_platform():
+    """the errno / signal / socket modules as another platform would expose them: every integer constant is renumbered
+    or missing, errno.errorcode follows; used with a RELOAD of the decoder modules, so that tables built at import time
+    from the host are seen as well"""
+    import errno
+    import signal
+    import socket
+    saved, removed = [], []
+    saved_err = dict(errno.errorcode)
+    try:
+        for mod in (errno, socket, signal):
+            for attr, val in list(vars(mod).items()):
+                if not attr[:1].isupper() or not isinstance(val, int) or isinstance(val, bool) or attr in ('SIGALRM', 'ITIMER_REAL'):
+                    continue
+                if mod is signal and not attr.startswith('SIG'):
+                    continue
+                h = sum(ord(c) * (i + 3) for i, c in enumerate(attr))
+                saved.append((mod, attr, val))
+                if h % 3 == 0:
+                    delattr(mod, attr)
+                else:
+                    try:
+                        setattr(mod, attr, int(val) + 1000 + h % 7)
+                    except Exception:  # noqa
+                        saved.pop()
+        errno.errorcode.clear()
+        errno.errorcode.update({getattr(errno, n): n for n in dir(errno) if n[:1] == 'E' and isinstance(getattr(errno, n), int)})
+        yield
+    finally:
+        for mod, attr, val in saved:
+            setattr(mod, attr, val)
+        errno.errorcode.clear()
+        errno.errorcode.update(saved_err)
+
+
+def reload_decoders():
+    import importlib
+    import pykdebugparser.trace_handlers.bsd as bsd
+    import pykdebugparser.traces_parser as tp
+    importlib.reload(bsd)
+    importlib.reload(tp)
+
+
+def prop_reload(ctx, case):
+    """decoder modules loaded afresh on an alien platform render exactly what they render here"""
+    cases = []
+    for code in list(range(0, 141)):
+        cases.append(('BSC_read', [3, 0x1000, 16, 0], [code, 5, 0, 0]))
+    for sig in range(1, 32):
+        cases.append(('BSC_sigaction', [sig, 0x10, 0x20, 0], [0, 0, 0, 0]))
+    for af in sorted(D.AF):
+        cases.append(('BSC_socket', [af, 1 + af % 5, 6, 0], [0, 5, 0, 0]))
+    for level in list(range(0, 300)) + [0xffff]:
+        cases.append(('BSC_setsockopt', [3, level, 0x1001 if level == 0xffff else 7, 0x40], [0, 0, 0, 0]))
+        cases.append(('BSC_getsockopt', [3, level, 0x1 if level == 0xffff else 3, 0x40], [0, 0, 0, 0]))
+    here = [guard(render, n, a, e) for n, a, e in cases]
+    try:
+        with alien_platform():
+            guard(reload_decoders)
+            there = [guard(render, n, a, e) for n, a, e in cases]
+    finally:
+        reload_decoders()
+    for (n, a, e), x, y in zip(cases, here, there):
+        if x != y:
+            raise Violation(f'host-dependent:import-time:{n}', f'{n} START={a} END={e}: {x!r} here, {y!r} when the decoders are loaded on another platform')
+    ctx.note(['reload', len(cases)], nontrivial=True, classes=['reload-on-alien-platform'])
+    ctx.note(['reload-2'], nontrivial=True, classes=[])
+
+
+PROPS = {'reload': prop_reload, 'errno_sweep': prop_errno_sweep, 'errno': prop_errno, 'signal': prop_signal, 'socket': prop_socket, 'sockopt': prop_sockopt}
 
 
 def run(ctx):
@@ -205,6 +276,8 @@ def run(ctx):
     every = EV.decodable_names()['bsd']
     sweep = [{'name': n, 'seed': base + i} for i, n in enumerate(n for n in every if n in byname)]
     ctx.run_enum('errno_sweep', sweep, prop_errno_sweep, exhaustive_label='every BSD decoder x error codes 1..140 x 2 (quick) / 4 (thorough) START shapes (host vs Darwin model)')
+    if ctx.shard == 0:
+        ctx.run_enum('reload', [{}], prop_reload)
     ctx.run_enum('signal', [{'sig': s, 'seed': base + s} for s in range(1, 32)], prop_signal, exhaustive_label='signals 1..31')
     so = [{'name': n, 'af': af, 'kind': k, 'seed': base + af * 7 + k}
           for n in ('BSC_socket', 'BSC_socketpair', 'BSC_socket_delegate') for af in sorted(D.AF) for k in range(1, 6)]
